@@ -67,6 +67,7 @@ type FuncContract struct {
 	Lets     map[string]*CExpr
 	LetOrder []string
 	Probes   []*Clause
+	CEHints  []*Clause // "cehint <expr>": soft constraints tried first in the counterexample search (never in a proof)
 	Where    string
 	IsIface  bool
 	Params   []string // optional explicit parameter names (for external functions)
@@ -114,7 +115,7 @@ func NewContracts() *Contracts {
 
 var clauseKeywords = map[string]bool{"requires": true, "ensures": true, "modifies": true, "loop": true, "mode": true, "arith": true,
 	"nopanic": true, "monitor": true, "trusted": true, "pure": true, "property": true, "invariant": true, "guarded_by": true,
-	"uses": true, "apply": true, "critical": true, "ghost": true, "effect": true, "assume": true, "inline": true, "opt": true, "params": true, "let": true, "probe": true}
+	"uses": true, "apply": true, "critical": true, "ghost": true, "effect": true, "assume": true, "inline": true, "opt": true, "params": true, "let": true, "probe": true, "cehint": true}
 
 func (cs *Contracts) LoadFile(path string) error {
 	data, err := os.ReadFile(path)
@@ -340,6 +341,12 @@ func (cs *Contracts) LoadFile(path string) error {
 				}
 				cl.Label = strings.TrimSpace(rest[:k])
 				curF.Probes = append(curF.Probes, cl)
+			case "cehint":
+				cl, err := mkClause("cehint", rest, where)
+				if err != nil {
+					return err
+				}
+				curF.CEHints = append(curF.CEHints, cl)
 			case "requires", "ensures", "assume":
 				cl, err := mkClause(word, rest, where)
 				if err != nil {
